@@ -44,3 +44,19 @@ def with_(plan, **kw):
     c = copy.deepcopy(plan)
     c.update(kw)
     return c
+
+
+def concurrent_calls(calls, seed, budget=400000, switch_p=None):
+    """run the given {name: callable} as actors of one seeded schedule (decision points: every
+    file operation, lock wait and sleep); returns (results, errors, sched)"""
+    import random
+
+    from ..sched import Sched
+
+    rng = random.Random(seed)
+    s = Sched(rng=rng, switch_p=switch_p if switch_p is not None else rng.choice([1.0, 0.5, 0.2]),
+              max_steps=budget)
+    for name, fn in calls.items():
+        s.spawn(name, fn)
+    s.run(wall_timeout=800)
+    return dict(s.res), dict(s.err), s
